@@ -65,6 +65,13 @@ def cases(tier, seed):
         # definition (trace term of the KL included) and against the evidence
         for strat, q in itertools.product(["VariationalStrategy", "UnwhitenedVariationalStrategy"], ["mf_random", "mf_best", "mf_wide"]):
             yield {"kind": "bound", "strategy": strat, "q": q, "vd": "MeanFieldVariationalDistribution", "N": rnd.choice([12, 25]), "seed": rnd.randrange(10**6)}
+        # a training-mode evaluation with autograd off (objective on held-out data) happened BEFORE the hyper-parameters and
+        # inducing points moved: the next evaluation is that of the current state; strategies given an explicit jitter (incl. 0)
+        for strat, q in itertools.product(["VariationalStrategy", "UnwhitenedVariationalStrategy"], ["random", "optimal", "mf_random"]):
+            yield {"kind": "bound", "strategy": strat, "q": q, "N": rnd.choice([12, 25]), "after_nograd_eval": True, "seed": rnd.randrange(10**6),
+                   **({"vd": "MeanFieldVariationalDistribution"} if q.startswith("mf_") else {})}
+        for strat, q, jv in itertools.product(["VariationalStrategy", "UnwhitenedVariationalStrategy"], ["random", "optimal"], [0.0, 1e-3]):
+            yield {"kind": "bound", "strategy": strat, "q": q, "N": rnd.choice([12, 25]), "jitter_val": jv, "seed": rnd.randrange(10**6)}
         for strat, b, start in itertools.product(["VariationalStrategy", "UnwhitenedVariationalStrategy"], [[], [3]], ["init", "random"]):
             yield {"kind": "ngd", "strategy": strat, "batch": b, "start": start, "N": 20, "seed": rnd.randrange(10**6)}
 
@@ -463,14 +470,14 @@ def _gauss_setup(case, g, strat, dist, batch=()):
     return m, lik, Z, X, y
 
 
-def _dense_bounds(m, lik, Z, X, y, strat):
+def _dense_bounds(m, lik, Z, X, y, strat, jit=None):
     """exact evidence, Titsias bound and the optimal q(u) in the strategy's parameterisation, for the jitter-regularised prior"""
     import torch
 
     from gpytorch import settings as S
     from vf import util
 
-    jit = float(m.variational_strategy.jitter_val)
+    jit = float(m.variational_strategy.jitter_val) if jit is None else float(jit)  # (a jitter the CASE declared is taken from the case)
     with torch.no_grad(), S.lazily_evaluate_kernels(False):
         k, mu = m.covar_module, m.mean_module
         Kzz = k(Z).to_dense() + jit * torch.eye(M_)
@@ -521,7 +528,16 @@ def _bound(case, ctx, g):
     strat = case["strategy"]
     m, lik, Z, X, y = _gauss_setup(case, g, strat, case.get("vd", "CholeskyVariationalDistribution"))
     N = case["N"]
-    bounds, (m_opt, S_opt), (mz, Kzz, L) = _dense_bounds(m, lik, Z, X, y, strat)
+    if case.get("jitter_val") is not None:
+        m.variational_strategy.jitter_val = case["jitter_val"]  # (documented setter; 0.0 = no jitter at all)
+    if case.get("after_nograd_eval"):
+        with torch.no_grad():
+            gpytorch.mlls.VariationalELBO(lik, m, num_data=N)(m(X), y)
+            util.randomize(m.covar_module, g, 0.4)
+            util.randomize(m.mean_module, g, 0.4)
+            m.variational_strategy.inducing_points.add_(0.15 * util.randn(g, *m.variational_strategy.inducing_points.shape))
+            Z = m.variational_strategy.inducing_points.detach().clone()
+    bounds, (m_opt, S_opt), (mz, Kzz, L) = _dense_bounds(m, lik, Z, X, y, strat, jit=case.get("jitter_val"))
     q = case["q"]
     if q.startswith("mf_"):
         # frame of the parameterisation: whitened u' = L^-1 (u - mz) or u itself
@@ -573,7 +589,7 @@ def _bound(case, ctx, g):
             P.add_(torch.triu(util.randn(g, *P.shape), diagonal=1) * 0.8)
     with torch.no_grad():
         elbo = mll(m(X), y) * N
-    if q in ("random", "farmean", "prior") or q.startswith("mf_"):
+    if q in ("random", "farmean", "prior", "optimal") or q.startswith("mf_"):
         # N*ELBO from its dense definition for this very q(u) = N(m_u, S_u):
         # sum_i [log N(y_i | mu_q(x_i), s2) - var_q(x_i) / (2 s2)] - KL(q(u) || p(u)), KL with its trace term tr(Kzz^-1 S_u)
         import math
@@ -586,10 +602,12 @@ def _bound(case, ctx, g):
             mu_q = mu_(X) + A_.T @ (m_u - mz)
             kl_ref = 0.5 * (torch.trace(torch.linalg.solve(Kzz, S_u)) + (m_u - mz) @ torch.linalg.solve(Kzz, m_u - mz) - M_ + torch.logdet(Kzz) - torch.logdet(S_u))
             refs = []
-            for jx in ((float(m.variational_strategy.jitter_val), 0.0) if strat == "VariationalStrategy" else (0.0, float(m.variational_strategy.jitter_val))):
+            jv_ = float(m.variational_strategy.jitter_val) if case.get("jitter_val") is None else float(case["jitter_val"])
+            for jx in ((jv_, 0.0) if strat == "VariationalStrategy" else (0.0, jv_)):
                 var_q = (Kxx + jx * torch.eye(N) - Kxz @ A_ + A_.T @ S_u @ A_).diagonal()
                 refs.append((-0.5 * math.log(2 * math.pi) - 0.5 * torch.log(s2) - 0.5 * ((y - mu_q) ** 2 + var_q) / s2).sum() - kl_ref)
-        ctx.close("elbo_equals_dense_definition", elbo, refs[0], (1e-6, 1e-6), cls=f"{q}:{strat[:6]}", alt=refs[1], q=q)
+        # (a jitter the case declared leaves no ambiguity about where it enters: compared tightly)
+        ctx.close("elbo_equals_dense_definition", elbo, refs[0], (1e-6, 1e-6) if case.get("jitter_val") is None else (1e-8, 3e-8), cls=f"{q}:{strat[:6]}", alt=refs[1], q=q)
     exact_j, tits_j = bounds["jit"]
     exact_0, tits_0 = bounds["nojit"]
     slack = 1e-6 + 2 * abs(float(exact_j - exact_0))
